@@ -414,8 +414,13 @@ def is_features_concatenate(n: fx.Node, parent: fx.GraphModule) -> bool:
     :rtype: bool
     """
     dim = try_get_args(n, parent, 1, 'dim', 0)
-    if n.op == 'call_function' and n.target == torch.cat and dim == 1:
-        return True
+    if n.op == 'call_function' and n.target == torch.cat:
+        if dim == 1:
+            return True
+        # the features axis counted from the end (e.g., dim=-3 for NCHW tensors)
+        tensor_meta = n.meta.get('tensor_meta')
+        if isinstance(dim, int) and dim < 0 and hasattr(tensor_meta, 'shape'):
+            return len(tensor_meta.shape) + dim == 1
     return False
 
 
